@@ -15,7 +15,7 @@ Everything is enumerated by reflection at import time, so a new command class or
   Which kind a class is, is read from the real class hierarchy.
 * one contract on `Controller.on_hci_command_packet` per registered command class (197 today; its handler is used
   through the handler contract above, classes without handler fall into the real default handler), per op-code that
-  has a name but no class (142 today) and one for every other op-code (generic `HCI_Command`): exactly one reply with
+  has a name but no class (142 today) and one for all op-codes without class (generic `HCI_Command`): exactly one reply with
   the command's opcode, no stray reply.
 * `Controller._send_hci_command_status` and `Controller.send_hci_packet` themselves.
 
@@ -43,9 +43,11 @@ ENVIRONMENT = [
     'all of which are under contract; hence no unmodelled callee can emit a reply',
     'C03: a command handler is found by getattr on the class; instance attributes named on_hci_*_command added at run '
     'time are not considered',
-    'C03: for an op-code with neither a registered class nor a name, HCI_Command.command_name() returns '
-    '"[OGF=0x.., OCF=0x....]"; that no such string (lower-cased, prefixed with on_) is an attribute of Controller is '
-    'checked by exhaustive native evaluation over all 65536 op-codes at import, not by the prover',
+    'C03: for an op-code without registered class the packet is a generic HCI_Command whose name is '
+    'HCI_Command.command_name(op) (a name from command_names, else "[OGF=0x.., OCF=0x....]"); that no such string '
+    '(lower-cased, prefixed with on_) is an attribute of Controller is checked by exhaustive native evaluation over all '
+    '65536 op-codes at import (a violated check is a checker error), not by the prover; the contract then uses a '
+    'representative name string',
     'C03: delivery between controller and host (asyncio call_soon FIFO order, transports) and the re-entrancy of '
     'host.on_packet are environment; Controller.send_hci_packet with no host attached drops the packet (nobody waits)',
     'C03 not reachable by contracts: FIFO fairness of asyncio.Semaphore among concurrent callers of Host._send_command '
@@ -71,7 +73,7 @@ HANDLER_CLASS = {}  # handler name -> command class it serves
 for _op, _cls in COMMAND_CLASSES.items():
     HANDLER_CLASS['on_' + _cls.name.lower()] = _cls
 NAMED_WITHOUT_CLASS = {op: n for op, n in COMMAND_NAMES.items() if op not in COMMAND_CLASSES}
-KNOWN_OPCODES = tuple(sorted(set(COMMAND_CLASSES) | set(COMMAND_NAMES)))
+CLASS_OPCODES = tuple(sorted(COMMAND_CLASSES))
 
 
 def kind_of_class(cls):
@@ -118,12 +120,14 @@ def _side_conditions():
         owner = next(k for k in Controller.__mro__ if h in k.__dict__)
         if owner is not Controller:
             problems.append(f'handler {h} is inherited from {owner.__name__}')
-    # op-codes without class and without name: the computed handler name is never an attribute of Controller
+    # op-codes without registered class (a generic HCI_Command is built for them): the handler name computed from
+    # HCI_Command.command_name(op) -- a name from command_names or '[OGF=0x.., OCF=0x....]' -- is never an attribute
+    # of Controller, so dispatch takes the getattr default
     for op in range(0x10000):
-        if op in COMMAND_CLASSES or op in COMMAND_NAMES:
+        if op in COMMAND_CLASSES:
             continue
         if hasattr(Controller, 'on_' + hci.HCI_Command.command_name(op).lower()):
-            problems.append(f'op-code {op:#06x} without class/name resolves to a Controller attribute')
+            problems.append(f'op-code {op:#06x} without class resolves to the Controller attribute on_{hci.HCI_Command.command_name(op).lower()}')
     if problems:
         raise AssertionError('C03 side conditions violated:\n  ' + '\n  '.join(problems))
 
@@ -303,11 +307,12 @@ contract(
 # Controller.__init__ establishes the invariant the handlers rely on
 # ---------------------------------------------------------------------------
 model('bumble.controller:Controller#new', fields={})
+model('ghost:LocalLink', fields={}, methods={'add_controller': Callback('add_controller')})
 contract(
     'bumble.controller:Controller.__init__',
     prop='C03',
     profile='skeleton',
-    params=dict(self=Inst('bumble.controller:Controller#new'), name=Str, host_source=Any, host_sink=Any, link=Opt(Opaque('link')), public_address=Any),
+    params=dict(self=Inst('bumble.controller:Controller#new'), name=Str, host_source=Any, host_sink=Any, link=Opt(Inst('ghost:LocalLink')), public_address=Any),
     ensures=lambda self: [self.link is not None],
     ensures_names=['link-attached'],
     modifies=['self.*'],
@@ -383,18 +388,320 @@ if any(kind_of_class(c) == 'generic' for c in COMMAND_CLASSES.values()):
 
 contract(
     PACKET_TARGET,
-    key=f'{PACKET_TARGET}@named-opcodes-without-class',
-    params=dict(self=CTRL, command=OneOf(*[generic_command(Const(op), Const(n)) for op, n in NAMED_WITHOUT_CLASS.items()])),
+    key=f'{PACKET_TARGET}@opcode-without-class',
+    params=dict(self=CTRL, command=generic_command(IntRange(0, 0xFFFF), Const('<name of an op-code without class>'))),
     inline=['Controller.on_hci_command', 'Controller._send_hci_command_status'],
-    note=f'generic HCI_Command for each of the {len(NAMED_WITHOUT_CLASS)} op-codes that have a name but no registered class',
-    **PACKET_COMMON,
+    note=f'generic HCI_Command: any op-code without registered class ({len(NAMED_WITHOUT_CLASS)} of them have a name); name string: see ENVIRONMENT',
+    **dict(PACKET_COMMON, requires=lambda self, command: [self.link is not None, command.op_code not in CLASS_OPCODES]),
+)
+
+
+# ===========================================================================
+# Host side (bumble/host.py), profile 'value'
+# ===========================================================================
+#
+# State: Host.command_semaphore (asyncio.Semaphore(1)), Host.pending_command, Host.pending_response.
+# The semaphore is a ghost counter: ghost.sem is its value, ghost.waiting says whether some task is queued on it
+# (asyncio: locked() == (value == 0 or a live waiter exists); release() increments the value without upper bound, which
+# is why the code tests locked() before releasing).
+#
+# Shared invariant (host_inv) -- holds whenever control is at an await:
+#   0 <= sem <= 1;  pending_response is None  <=>  pending_command is None;  a command is outstanding  =>  sem == 0.
+# Cooperative scheduling (A1): at an await every other operation of the host may run; they are assumed to preserve the
+# invariant (rely) -- which is what their own contracts below prove (guarantee) under the environment assumption E:
+#   E: a Command Complete / Command Status event reaches the host only as the answer to the outstanding command
+#      (what the controller side above proves: exactly one reply per command, carrying its opcode), in particular no
+#      Command Complete with opcode 0 (flow-control NOP) arrives while a command is outstanding, and no reply arrives
+#      between the release of the semaphore and the resumption of the next queued caller.
+TransportLostError = _host.TransportLostError
+
+
+def host_send(ghost, packet):
+    """Host.send_hci_packet: the command leaves for the controller only while the semaphore is held"""
+    assert ghost.sem == 0
+    if ghost.send_fails:
+        raise RuntimeError('transport failure')
+    ghost.sent = ghost.sent + 1
+
+
+def host_emit(ghost, name):
+    ghost.flushes = ghost.flushes + 1
+
+
+def sem_release(ghost):
+    ghost.sem = ghost.sem + 1
+
+
+def sem_locked(ghost):
+    return ghost.sem == 0 or ghost.waiting
+
+
+def fut_set_result(ghost, value):
+    ghost.results = ghost.results + 1
+    ghost.result_opcode = value.command_opcode
+
+
+def fut_set_exception(ghost, exc):
+    assert isinstance(exc, TransportLostError)
+    ghost.failures = ghost.failures + 1
+
+
+model('ghost:Semaphore', fields={}, methods={
+    'acquire': Callback('acquire', is_async=True),
+    'release': Callback('release', effect=sem_release),
+    'locked': Callback('locked', effect=sem_locked),
+})
+model('ghost:Future', fields={}, methods={
+    'set_result': Callback('set_result', effect=fut_set_result),
+    'set_exception': Callback('set_exception', effect=fut_set_exception),
+})
+model('bumble.hci:HCI_Command#host', fields=dict(op_code=IntRange(1, 0xFFFF), name=Str))
+model('bumble.hci:HCI_Command_Complete_Event#host', fields=dict(num_hci_command_packets=IntRange(0, 255), command_opcode=IntRange(0, 0xFFFF)))
+model('bumble.hci:HCI_Command_Status_Event#host', fields=dict(num_hci_command_packets=IntRange(0, 255), command_opcode=IntRange(0, 0xFFFF), status=IntRange(0, 255)))
+H_COMMAND = Inst('bumble.hci:HCI_Command#host')
+H_COMPLETE = Inst('bumble.hci:HCI_Command_Complete_Event#host')
+H_STATUS = Inst('bumble.hci:HCI_Command_Status_Event#host')
+H_FUTURE = Inst('ghost:Future')
+
+model(
+    'bumble.host:Host',
+    fields=dict(pending_command=Opt(H_COMMAND), pending_response=Opt(H_FUTURE), command_semaphore=Inst('ghost:Semaphore')),
+    methods={
+        'send_hci_packet': Callback('send_hci_packet', effect=host_send, raises=(RuntimeError,)),
+        'emit': Callback('emit', effect=host_emit),
+    },
+)
+HOST = Inst('bumble.host:Host')
+SEM_GHOST = dict(sem=Int, waiting=Bool)
+HOST_STATE = ['self.pending_command', 'self.pending_response', 'ghost.sem', 'ghost.waiting']
+
+
+def host_inv(self, ghost):
+    return [
+        ghost.sem >= 0,
+        ghost.sem <= 1,
+        (self.pending_response is None) == (self.pending_command is None),
+        implies(self.pending_response is not None, ghost.sem == 0),
+    ]
+
+
+def take_semaphore(ghost):
+    """acquire() returns: the value was positive and is decremented (atomically with the resumption)"""
+    ghost.sem = ghost.sem - 1
+
+
+def acquired(ghost):
+    return [ghost.sem >= 1]
+
+
+def still_ours(self, ghost):
+    """while this caller holds the semaphore nobody else passes acquire() and (E) no handler releases it, and only
+    _send_command assigns pending_command / pending_response (checked syntactically at import)"""
+    return host_inv(self, ghost) + [ghost.sem == 0, self.pending_response is not None, self.pending_command is not None]
+
+
+def published(self, command, ghost):
+    """guarantee at the wait: the future and the command this caller registered are the pending ones"""
+    return host_inv(self, ghost) + [self.pending_response is ghost.fut, self.pending_command is command, ghost.sem == 0]
+
+
+TASK_LOCAL_GHOST = ('sent', 'waits', 'flushes')
+
+
+def make_await_hook(guarantee_wait=None, rely_wait=None):
+    """rely/guarantee at the awaits of a function that first acquires the command semaphore.
+    `await semaphore.acquire()`: guarantee host_inv; others run; rely host_inv and value >= 1, then take it.
+    any later await: guarantee `guarantee_wait`; others run; rely `rely_wait`."""
+    from pyvc.vcgen import OldView
+
+    def hook(path, v, node):
+        cfg = path.cfg
+        env = dict(path.entry_env)
+        for fr in reversed(path.scope):
+            env.update(path.obj(fr).vars)
+        env['old'] = OldView(path.entry_env, 'old')
+        acquiring = 'command_semaphore.acquire' in ast.unparse(node.value)
+        guar = host_inv if acquiring else guarantee_wait
+        for i, cl in enumerate(cfg.clauses(path, guar, env)):
+            path.oblige(cfg.obl_name(path, 'await-guarantee', f'L{node.lineno}#{i}'), 'await-guarantee', cl)
+        g = path.wobj(path.ghost).fields
+        local = {n: g[n] for n in TASK_LOCAL_GHOST if n in g}  # per-activation ghost counters: no other task writes them
+        cfg.havoc_modifies(path, cfg.top, path.entry_env, 'await')
+        path.wobj(path.ghost).fields.update(local)
+        path.abstraction_used = True
+        for cl in cfg.clauses(path, host_inv if acquiring else rely_wait, env):
+            path.assume(cl)
+        if acquiring:
+            for cl in cfg.clauses(path, acquired, env):
+                path.assume(cl)
+            cfg.spec_eval(path, take_semaphore, env)
+        return v
+
+    return hook
+
+
+def wait_for_response(ghost, fut, timeout):
+    """asyncio.wait_for(self.pending_response, timeout): the caller waits on the future it registered, after the
+    command went out; outcomes: the response the future was resolved with, timeout, the exception set on the future
+    (transport lost), cancellation of the caller"""
+    assert fut is ghost.fut
+    assert ghost.sent == ghost.sent0 + 1
+    ghost.waits = ghost.waits + 1
+    if ghost.outcome == 1:
+        raise asyncio.TimeoutError()
+    if ghost.outcome == 2:
+        raise TransportLostError('transport lost')
+    if ghost.outcome == 3:
+        raise asyncio.CancelledError()
+    return ghost.resp
+
+
+model('ghost:Loop#host', fields={}, methods={'create_future': Callback('create_future', effect=lambda ghost: ghost.fut)})
+HOST_STUBS = {
+    asyncio.get_running_loop: Callback('get_running_loop', effect=lambda ghost: ghost.loop),
+    asyncio.wait_for: Callback('wait_for', effect=wait_for_response, is_async=True, raises=(asyncio.TimeoutError, RuntimeError, asyncio.CancelledError)),
+}
+SEND_GHOST = dict(SEM_GHOST, sent=Int, sent0=Int, send_fails=Bool, waits=Int, outcome=IntRange(0, 3), resp=OneOf(H_COMPLETE, H_STATUS),
+                  fut=H_FUTURE, loop=Inst('ghost:Loop#host'))
+
+
+def cleared_and_released(self, ghost, old):
+    """every abnormal exit: nothing pending any more, the semaphore is free again, the command went out at most once"""
+    return [self.pending_command is None, self.pending_response is None, ghost.sem == 1, ghost.sent <= old.ghost.sent + 1] + host_inv(self, ghost)
+
+
+contract(
+    'bumble.host:Host._send_command',
+    prop='C03',
+    params=dict(self=HOST, command=H_COMMAND, response_timeout=Opt(Int)),
+    ghost=SEND_GHOST,
+    requires=lambda self, ghost: host_inv(self, ghost) + [ghost.sent0 == ghost.sent],
+    ensures=lambda self, command, res, ghost, old: [
+        res is ghost.resp,  # the caller gets the event its own future was resolved with
+        self.pending_command is None,
+        self.pending_response is None,
+        # released unless the controller granted no further command credit
+        ghost.sem == (0 if res.num_hci_command_packets == 0 else 1),
+        ghost.sent == old.ghost.sent + 1,  # the command went out exactly once
+        ghost.waits == old.ghost.waits + 1,
+    ] + host_inv(self, ghost),
+    ensures_names=['returns-the-response-of-its-own-future', 'pending-command-cleared', 'pending-response-cleared', 'released-unless-no-credit',
+                   'sent-exactly-once', 'waited-once', 'inv-sem>=0', 'inv-sem<=1', 'inv-pending-pair', 'inv-outstanding-implies-locked'],
+    raises={asyncio.TimeoutError: cleared_and_released, asyncio.CancelledError: cleared_and_released, RuntimeError: cleared_and_released},
+    modifies=HOST_STATE + ['ghost.sent', 'ghost.waits'],
+    stubs=HOST_STUBS,
+    await_hook=make_await_hook(guarantee_wait=published, rely_wait=still_ours),
+    native_run_for=0.5,
+    note='semaphore = ghost counter; awaits havoc the shared state under the host invariant (rely) and the invariant is an obligation before each await (guarantee)',
+    assumes=['E (see contract file): replies reach the host only as answers to the outstanding command; FIFO wake-up order of asyncio.Semaphore is not modelled'],
 )
 
 contract(
-    PACKET_TARGET,
-    key=f'{PACKET_TARGET}@unknown-opcode',
-    params=dict(self=CTRL, command=generic_command(IntRange(0, 0xFFFF), Const('[OGF=0x??, OCF=0x????]'))),
-    inline=['Controller.on_hci_command', 'Controller._send_hci_command_status'],
-    note='generic HCI_Command, any op-code with neither class nor name (name string: see ENVIRONMENT)',
-    **dict(PACKET_COMMON, requires=lambda self, command: [self.link is not None, command.op_code not in KNOWN_OPCODES]),
+    'bumble.host:Host.flush',
+    prop='C03',
+    params=dict(self=HOST),
+    ghost=dict(SEM_GHOST, flushes=Int),
+    requires=host_inv,
+    ensures=lambda self, ghost, old: [ghost.sem == 1, self.pending_command is None, self.pending_response is None, ghost.flushes == old.ghost.flushes + 1] + host_inv(self, ghost),
+    ensures_names=['released', 'nothing-pending', 'nothing-pending-response', 'flushed-once', 'inv-sem>=0', 'inv-sem<=1', 'inv-pending-pair', 'inv-outstanding-implies-locked'],
+    modifies=HOST_STATE + ['ghost.flushes'],
+    await_hook=make_await_hook(),
+    native_run_for=0.5,
+    note='the second user of the command semaphore: takes it (so no command is outstanding), emits flush, releases it, with no await in between',
+)
+
+
+# -- event handlers -----------------------------------------------------------
+EVENT_GHOST = dict(SEM_GHOST, results=Int, result_opcode=Int, failures=Int, flushes=Int)
+EVENT_MOD = ['ghost.sem', 'ghost.results', 'ghost.result_opcode']
+
+
+def no_early_wakeup(self, ghost):
+    """E, last clause: no event without an outstanding command while a released waiter has not resumed yet"""
+    return implies(self.pending_response is None, not (ghost.sem == 1 and ghost.waiting))
+
+
+def processed_post(self, event, ghost, old):
+    answered = old.self.pending_response is not None
+    credit = event.num_hci_command_packets != 0 and (old.ghost.sem == 0 or ghost.waiting)
+    return host_inv(self, ghost) + [
+        # an outstanding command: its future gets exactly this event, the semaphore stays with the caller
+        implies(answered, ghost.results == old.ghost.results + 1 and ghost.result_opcode == event.command_opcode and ghost.sem == old.ghost.sem),
+        # nothing outstanding: a pure credit update; frees a semaphore that stayed locked after a response with 0 credits
+        implies(not answered, ghost.results == old.ghost.results and ghost.sem == old.ghost.sem + (1 if credit else 0)),
+    ]
+
+
+PROCESSED_NAMES = ['inv-sem>=0', 'inv-sem<=1', 'inv-pending-pair', 'inv-outstanding-implies-locked', 'answer-resolves-the-pending-future-once', 'credit-only-when-nothing-outstanding']
+
+contract(
+    'bumble.host:Host.on_command_processed',
+    prop='C03',
+    params=dict(self=HOST, event=OneOf(H_COMPLETE, H_STATUS)),
+    ghost=EVENT_GHOST,
+    requires=lambda self, ghost: host_inv(self, ghost) + [no_early_wakeup(self, ghost)],
+    ensures=processed_post,
+    ensures_names=PROCESSED_NAMES,
+    modifies=EVENT_MOD,
+)
+contract('bumble.host:Host.on_command_processed', key='bumble.host:Host.on_command_processed@callee', params=dict(self=HOST, event=OneOf(H_COMPLETE, H_STATUS)),
+         ghost=EVENT_GHOST, requires=lambda self, ghost: host_inv(self, ghost) + [no_early_wakeup(self, ghost)], ensures=processed_post, modifies=EVENT_MOD)
+
+contract(
+    'bumble.host:Host.on_hci_command_complete_event',
+    prop='C03',
+    params=dict(self=HOST, event=H_COMPLETE),
+    ghost=EVENT_GHOST,
+    # E: a flow-control NOP (opcode 0) does not arrive while a command is outstanding
+    requires=lambda self, event, ghost: host_inv(self, ghost) + [no_early_wakeup(self, ghost), implies(event.command_opcode == 0, self.pending_response is None)],
+    ensures=processed_post,
+    ensures_names=PROCESSED_NAMES,
+    modifies=EVENT_MOD,
+    uses=['bumble.host:Host.on_command_processed@callee'],
+)
+
+contract(
+    'bumble.host:Host.on_hci_command_status_event',
+    prop='C03',
+    params=dict(self=HOST, event=H_STATUS),
+    ghost=EVENT_GHOST,
+    requires=lambda self, ghost: host_inv(self, ghost) + [no_early_wakeup(self, ghost)],
+    ensures=processed_post,
+    ensures_names=PROCESSED_NAMES,
+    modifies=EVENT_MOD,
+    uses=['bumble.host:Host.on_command_processed@callee'],
+)
+
+contract(
+    'bumble.host:Host.on_transport_lost',
+    prop='C03',
+    params=dict(self=HOST),
+    ghost=EVENT_GHOST,
+    requires=host_inv,
+    ensures=lambda self, ghost, old: host_inv(self, ghost) + [
+        # the waiting caller (if any) is woken with an exception: it then clears the pending state and releases
+        ghost.failures == old.ghost.failures + (1 if self.pending_response is not None else 0),
+        ghost.flushes == old.ghost.flushes + 1,
+    ],
+    ensures_names=['inv-sem>=0', 'inv-sem<=1', 'inv-pending-pair', 'inv-outstanding-implies-locked', 'waiting-caller-gets-the-exception', 'flush-emitted'],
+    modifies=['ghost.failures', 'ghost.flushes'],
+)
+
+
+# -- Host.send_hci_packet: one hand-over to the transport sink per packet ---------------
+def sink_on_packet(ghost, data):
+    ghost.delivered = ghost.delivered + 1
+
+
+model('ghost:Sink', fields={}, methods={'on_packet': Callback('on_packet', effect=sink_on_packet)})
+model('bumble.host:Host#tx', fields=dict(snooper=Const(None), hci_sink=Opt(Inst('ghost:Sink'))))
+contract(
+    'bumble.host:Host.send_hci_packet',
+    prop='C03',
+    profile='skeleton',
+    params=dict(self=Inst('bumble.host:Host#tx'), packet=Any),
+    ghost=dict(delivered=Int),
+    ensures=lambda self, ghost, old: [ghost.delivered == old.ghost.delivered + (1 if self.hci_sink is not None else 0)],
+    ensures_names=['handed-to-the-sink-once'],
+    modifies=['ghost.delivered'],
 )
